@@ -4,7 +4,7 @@ HOOKS = {
               "compile /repo's sources through symlinks)",
     "baseline_off_cmd": "cd /repo && cargo nextest run --workspace --no-fail-fast --tool-config-file "
                         "pb:/w/lib/nextest.toml --profile pb --test-threads 8 --offline",
-    "source_commits": ["e2ad724", "3a73802", "1c721a0", "41fe99d", "254b2fc", "88d9964", "02f3736", "ae63f80", "37fb407", "d529db9"],
+    "source_commits": ["e2ad724", "3a73802", "1c721a0", "41fe99d", "254b2fc", "88d9964", "02f3736", "ae63f80", "37fb407", "d529db9", "9c909ef"],
     "add_only": True,
 }
 
